@@ -16,7 +16,9 @@ CONSTANTS G,        \* lattice is 0..G x 0..G
           WithBalls, \* TRUE: records carry the exact ball data of C13
           WithFF,    \* TRUE: records carry the exact form factor at q = pi m (C12)
           WithRadial, \* TRUE: (convex polygons) records carry exact centroid-to-boundary distances along integer directions (C14)
-          EmitOn    \* TRUE: print records
+          EmitOn,   \* TRUE: print records
+          Seeds     \* {}: behaviours start from the lattice triangles; otherwise a set of simple counter-clockwise
+                    \* vertex cycles (named polygons: combs, spirals, ...) from which behaviours start instead
 
 VARIABLES poly,     \* sequence of points: the vertex cycle as handed to the constructor
           tris      \* set of positively oriented triangles tiling the polygon
@@ -24,10 +26,23 @@ VARIABLES poly,     \* sequence of points: the vertex cycle as handed to the con
 vars == <<poly, tris>>
 Pts == (0..G) \X (0..G)
 
-Init == \E a, b, c \in Pts :
-          /\ Orient2(a, b, c) > 0
-          /\ poly = <<a, b, c>>
-          /\ tris = {<<a, b, c>>}
+\* a triangulation of a simple counter-clockwise cycle by ear clipping (definition level: some ear always exists)
+IsEar(s, i) == LET n == Len(s)  a == s[Prv(i, n)]  b == s[i]  c == s[Nxt(i, n)] IN
+                 /\ Orient2(a, b, c) > 0
+                 /\ \A k \in 1..n : s[k] \in {a, b, c} \/ ~InTriClosed(s[k], <<a, b, c>>)
+DropAt(s, i) == [k \in 1..Len(s) - 1 |-> IF k < i THEN s[k] ELSE s[k + 1]]
+RECURSIVE EarTris(_)
+EarTris(s) == IF Len(s) = 3 THEN {<<s[1], s[2], s[3]>>}
+              ELSE LET n == Len(s)  i == CHOOSE j \in 1..n : IsEar(s, j)
+                   IN {<<s[Prv(i, n)], s[i], s[Nxt(i, n)]>>} \cup EarTris(DropAt(s, i))
+
+Init == IF Seeds = {}
+        THEN \E a, b, c \in Pts :
+               /\ Orient2(a, b, c) > 0
+               /\ poly = <<a, b, c>>
+               /\ tris = {<<a, b, c>>}
+        ELSE /\ poly \in Seeds
+             /\ tris = EarTris(poly)
 
 \* insert p between poly[i] and its successor; legal iff the cycle is counter-clockwise,
 \* p is strictly to the right of that edge (outside) and the new cycle is simple
